@@ -123,9 +123,9 @@ PROPS = {
                  "(ScalarMul, ScalarOp, ScalarBaseMul/Op, algebrautils.ScalarMul with field scalars and unreduced naturals, "
                  "IsTorsionFree, ClearCofactor) with scalar classes {0,1,2,3,N-1,N-2,N,N+1,2N-1,(N+-1)/2,2^k,2^k+-1,8k, constant "
                  "nibbles, low weight, small, drawn} through 6 constructors (the reducing ones with k + mN); multi-scalar "
-                 "multiplication of lengths 1,2,3,7,8,9,17,64 (Curve.MultiScalarMul/Op, algebrautils.MultiScalarMul with field scalars "
-                 "and naturals of mixed byte length) with shapes {mixed, all-same-point, all-zero-scalars, one-nonzero, cancelling "
-                 "pairs, all-identity}; length 0 is the catalogued finding. Fields: all ordered pairs of 14 boundary classes and drawn "
+                 "multiplication of lengths 0,1,2,3,7,8,9,17,64 (Curve.MultiScalarMul/Op, algebrautils.MultiScalarMul with field scalars "
+                 "and naturals of mixed byte length; the generic algebrautils routine is not defined on length 0) with shapes {mixed, "
+                 "all-same-point, all-zero-scalars, one-nonzero, cancelling pairs, all-identity}. Fields: all ordered pairs of 14 boundary classes and drawn "
                  "values: Add Sub Mul Square Double Neg Inv Div EuclideanDiv predicates Compare Cardinal, low-level Sqrt (ok iff "
                  "Jacobi symbol 1 or 0, root squares back, root choice not asserted) and Pow, FromWideBytes / FromBytesBEReduce / "
                  "FromCardinal on wide inputs {drawn, all-ff, multiples of p, p*2^k+a, short}; F_p^2 against refcurve.Fp2. Pairing "
@@ -457,4 +457,70 @@ PROPS["C15"] = {
     "env": {"GOMAXPROCS": "2", "GOGC": "400"},
     "quick": {"scale": 1, "shards": 16, "timeout_s": 900},
     "thorough": {"scale": 10, "shards": 16, "timeout_s": 5400},
+}
+
+# temporary entry added by the C06 builder (lead: replace/adjust as needed)
+PROPS["C06"] = {
+    "pkg": "c06",
+    "level": "exploration",
+    "rule": ("rapid state machine (t.Repeat) over histories of 3-6 (thorough 3-12) drawn actions on one key: the model knows the secret s "
+             "(reconstructed once from the initial trusted dealing and confirmed to be the discrete logarithm of the public key, in the "
+             "library group and in the math/big curve model), the public key, the current policy / holder IDs / shards and an archive of "
+             "every epoch's shards. Actions: refresh (prev = all holders or a drawn qualified subset driving; the others as next-only "
+             "parties), recover (a drawn dispensable holder takes part without a previous shard; prev = all others or a qualified subset "
+             "of them), redistribute (new policy of any of the five families, n <= 5 (7), over a holder set that is the same / extended / "
+             "shrunk / overlapping / disjoint, fresh IDs ordinal / sparse / up to 2^64-1, hierarchical IDs level-ordered inside the "
+             "documented Tassa bound; prev = all or a qualified subset; trusted anchor off / on / per newcomer, anchor drawn from prev), "
+             "sign (drawn qualified quorum of the CURRENT structure, Lindell22 BIP-340 / Mina / configurable Schnorr or DKLs23-SoftSpoken, "
+             "judged under the ORIGINAL key by the library verifier and the independent one: BIP-340 of the BIP text, Schnorr group "
+             "equation, textbook ECDSA / crypto/ecdsa), mix (a set qualified by the policy assembled from two epochs of the same "
+             "structure, neither part qualified alone, tries to sign), reload (CBOR round trip of all current shards; continue with the "
+             "decoded ones). All runs go through the network runners over the harness Delivery. Invariant after every epoch change: every "
+             "party finishes without error, every next holder has a shard with its own ID, the ORIGINAL public key, the same "
+             "verification vector / span programme / public shares as the others; private share lifts to its public share; for EVERY "
+             "subset of holders: qualified <=> Reconstruct == s exactly and reconstruction in the exponent == pk, unqualified => error; "
+             "for EVERY (Q, A) with Q qualified and neither A nor Q\\A qualified: shares of A from an earlier epoch of the same structure "
+             "plus shares of Q\\A from the current one fail to reconstruct or give a value != s; mixed-epoch signing never yields a valid "
+             "signature. A history without a signature ends with one on the final shards. Non-trivial: >= 2 epoch changes and >= 1 "
+             "signature or mix check; distinct = sorted multiset of (action, old family > new family, anchor flag, prev all/subset | "
+             "signer kind, family) + length."),
+    "assumptions": COMMON_ASSUME + [
+        "a full quorum of an OLD epoch still works by design (README: shares are not erased) - nothing is asserted about it; only sets that need shares of two epochs are claimed not to combine",
+        "a mixed-epoch set reconstructing s by chance is a 1/q event and treated as impossible",
+        "mixed-epoch signing: any failure (constructor, run, aggregation, verification) is accepted; parties that send nothing for 4 s are cancelled without a verdict",
+        "Mina signatures are judged by the library verifier only (no independent Poseidon implementation offline); vesta and BLS12-381 G1/G2 have no threshold signing protocol, their histories are judged by reconstruction only",
+    ],
+    "quick": {"scale": 1, "shards": 16, "timeout_s": 900},
+    "thorough": {"scale": 7, "shards": 16, "timeout_s": 7200},
+}
+
+# temporary entry added by the C07 builder (lead: replace/adjust as needed)
+PROPS["C07"] = {
+    "pkg": "c07",
+    "level": "exploration",
+    "rule": ("every protocol with a network runner (session set-up, agree-on-random, Gennaro and Canetti DKG over threshold and CNF "
+             "policies, HJKY zero sharing, redistribution as refresh and as change of policy, Lindell22 as BIP-340 / Mina / "
+             "configurable Schnorr with 2 and 3 signers, DKLs23 with both multipliers, Lindell17 signing) run over the harness "
+             "switch on FIXED key material, with the session seed (3 values) and the message (3 values) reused on purpose and one "
+             "SHAKE stream per party as the only randomness. Per case a party position i and fresh stream seeds are drawn; every "
+             "scenario x every sampling position is also enumerated. P1: changing ONLY party i's stream changes the messages of i's "
+             "first sending round and every joint random value (signature R / r, DKG public key and all shares, session id, "
+             "agreed random value, zero shares, all redistributed shares while the public key stays). P2: it does not change the "
+             "opening-round messages of the other parties (only for scenarios whose first messages were identical in 60 "
+             "identical-stream runs). P3: a process-wide seen-set per scenario - no first-round message, R, r, public key, share or "
+             "session id repeats between runs whose streams differ. P4: the party's total byte consumption is measured, then its "
+             "reader fails after 0 / need-1 / need/2 / a drawn fraction of it: the party must end with an error (constructor or "
+             "run), never a panic, never an output. P5: identical streams give identical wire logs (multiset of from, to, round, "
+             "body), outputs and byte counts for the scenarios frozen as sequential (all but Gennaro, whose batch proofs read the "
+             "reader from several goroutines). P6: every sampling party reads > 0 bytes of ITS reader (counts reported). "
+             "Samplers outside protocols: KW / Feldman / Pedersen dealing (same stream => same shares; other stream => every "
+             "holder's share differs; starved => error), hash and Pedersen commitments, Paillier and ElGamal encryption and key "
+             "generation; Boldyreva BLS partial signatures as the deterministic control. Non-trivial: every case (the two streams "
+             "differ by construction and every scenario is randomised); distinct = (scenario, party position, check kind, starvation mode)."),
+    "assumptions": COMMON_ASSUME + [
+        "the harness random source is a mutex-protected SHAKE256 stream per party; a 2^-128 coincidence of two sampled values is treated as impossible",
+        "the lists of scenarios admitted to P2 / P4-completion / P5 are measured on the unchanged tree (60 identical-stream runs each, all agreeing) and frozen in c07/calibrate_test.go",
+    ],
+    "quick": {"scale": 1, "shards": 16, "timeout_s": 1200},
+    "thorough": {"scale": 8, "shards": 16, "timeout_s": 7200},
 }
